@@ -147,6 +147,34 @@ fn c07_case(seed: u64, lane: Lane, trace: bool) -> CaseOut {
         let dst = w.eps[0].addr;
         w.inject(at, src, dst, None, d, 0, true);
     }
+    // spoofed supported-version Initials of every size, with destination CIDs of every length
+    // (also shorter than the 8 bytes a genuine first Initial needs) and with or without a token:
+    // below 1200 bytes no state and no reply, from 1200 bytes on at most 3x
+    let n_init = r.below(8);
+    for _ in 0..n_init {
+        let total = *r.pick(&[13usize, 20, 23, 30, 60, 200, 600, 1199, 1199, 1200, 1250]);
+        let dl = *r.pick(&[0usize, 1, 4, 7, 8, 16, 20]);
+        let sl = *r.pick(&[0usize, 4, 8, 20]);
+        let mut d = vec![0xc0 | (r.below(4) as u8)];
+        d.extend_from_slice(&1u32.to_be_bytes());
+        d.push(dl as u8);
+        d.extend(r.bytes(dl));
+        d.push(sl as u8);
+        d.extend(r.bytes(sl));
+        let tok = *r.pick(&[0usize, 0, 0, 5, 40]);
+        crate::wire::put_var(&mut d, tok as u64);
+        d.extend(r.bytes(tok));
+        let rest = total.saturating_sub(d.len() + 2).max(1);
+        // (two-byte varint length)
+        d.push(0x40 | ((rest >> 8) as u8 & 0x3f));
+        d.push(rest as u8);
+        d.extend(r.bytes(rest));
+        let at = r.below(2_000_000_000);
+        let src = crate::world::addr_of(9, 8 + r.below(8) as u16);
+        let dst = w.eps[0].addr;
+        w.inject(at, src, dst, None, d, 0, true);
+        w.mon.cnt.inc("c07.spoofed_initials");
+    }
     let end = w.run(30_000, 600_000_000_000, |w| w.steps > 3 && w.all_connected() && w.workload_complete());
     let ran = Ran { w, end };
     finish_case(&h, ran, trace, "c07.unvalidated_dgrams")
@@ -167,7 +195,7 @@ pub fn run_c07(ctx: &Ctx) -> i32 {
         &rep,
         Finish {
             level: "exploration",
-            rule: "seeded worlds with 1-3 clients: server applications writing immediately after accept (large first flights), initial MTU 1200..1452, accept / retry / held-incoming policies, enumerated loss of the client's 2nd..9th datagrams so that only server timers fire, clients that vanish after their first flight, rebinding clients (new unvalidated paths), injected short-header junk of sizes around the stateless-reset thresholds; both crypto lanes. Oracle per (server connection, remote address, path instance): before each datagram to an address not yet validated (Handshake packet delivered from it, validated token, PATH_RESPONSE delivered) sent_so_far + 1 <= 3 x bytes delivered from that address; stateless resets strictly smaller than the inciting datagram and at most one per min_reset_interval. Non-trivial = at least one datagram sent to an unvalidated address.".into(),
+            rule: "seeded worlds with 1-3 clients: server applications writing immediately after accept (large first flights), initial MTU 1200..1452, accept / retry / held-incoming policies, enumerated loss of the client's 2nd..9th datagrams so that only server timers fire, clients that vanish after their first flight, rebinding clients (new unvalidated paths), injected short-header junk of sizes around the stateless-reset thresholds, spoofed version-1 Initials of 13..1250 bytes with destination CIDs of 0..20 bytes with and without tokens; both crypto lanes. Oracle per (server connection, remote address, path instance): before each datagram to an address not yet validated (Handshake packet delivered from it, validated token, PATH_RESPONSE delivered) sent_so_far + 1 <= 3 x bytes delivered from that address; stateless resets strictly smaller than the inciting datagram and at most one per min_reset_interval; no Incoming and no reply of any kind for a supported-version Initial in a datagram below 1200 bytes, and no stateless reply larger than 3x the datagram that provoked it. Non-trivial = at least one datagram sent to an unvalidated address.".into(),
             assumptions: vec![
                 "bytes credited to an address are a superset of what quinn credits (everything the harness delivered from it), so the bound checked is weaker-or-equal".into(),
                 "on the rustls lane PATH_RESPONSE is invisible; validation of migrated paths falls back on the probe's path_validated flag".into(),
